@@ -222,6 +222,60 @@ func cmdCheck(args []string) {
 		funcsEv = append(funcsEv, funcEvidence(e, fn, con, g, n))
 	}
 
+	// interface contracts that restate a concrete method's contract: every labelled
+	// ensures clause must exist, under the same label, on the concrete contract, and
+	// that contract must be verified in this very run
+	verifiedKeys := map[string]bool{}
+	for _, pf := range ps.Functions {
+		verifiedKeys[pf.Key] = true
+	}
+	var links []string
+	for _, pe := range engList {
+		for _, key := range sortedKeys(pe.ifaceCons) {
+			ic := pe.ifaceCons[key]
+			if ic.Refines == "" || engines[ic.Pkg] != pe {
+				continue
+			}
+			used := false
+			for _, g := range gens {
+				for _, a := range g.assumptions {
+					if a == "interface contract: "+ic.FullKey() {
+						used = true
+					}
+				}
+			}
+			if !used {
+				continue
+			}
+			tc, ok := pe.contracts[ic.Refines]
+			if !ok || tc.Trusted {
+				fails = append(fails, &failure{Name: ic.FullKey() + "#refines", Reason: "interface contract refines " + ic.Refines + ", which has no (untrusted) contract"})
+				continue
+			}
+			if !verifiedKeys[ic.Refines] {
+				fmt.Fprintf(os.Stderr, "gocv: props/%s.json uses interface contract %s but does not verify %s, which it restates\n", prop, ic.FullKey(), ic.Refines)
+				os.Exit(2)
+			}
+			have := map[string]bool{}
+			for _, cl := range tc.Ensures {
+				have[cl.Label] = true
+			}
+			var labels []string
+			for _, cl := range ic.Ensures {
+				if cl.Label == "" || !have[cl.Label] {
+					fmt.Fprintf(os.Stderr, "gocv: interface contract %s: clause %q has no counterpart with the same label on %s\n", ic.FullKey(), cl.Src, ic.Refines)
+					os.Exit(2)
+				}
+				labels = append(labels, cl.Label)
+			}
+			if ic.HasMod && !tc.HasMod {
+				fmt.Fprintf(os.Stderr, "gocv: interface contract %s has a modifies clause, %s has none\n", ic.FullKey(), ic.Refines)
+				os.Exit(2)
+			}
+			links = append(links, fmt.Sprintf("interface contract %s is taken to describe its implementation %s: the clauses [%s] and the frame are proved of that method in this run; that the two texts say the same thing (renaming the receiver's instance) is reviewed, not machine-checked", ic.FullKey(), ic.Refines, strings.Join(labels, ", ")))
+		}
+	}
+
 	// ownership declarations of the loaded packages (static scan, no solver)
 	var ownsChecked, ownsBad []string
 	for _, pe := range engList {
@@ -358,6 +412,7 @@ func cmdCheck(args []string) {
 	// evidence
 	var assumptions []string
 	assumptions = append(assumptions, ps.Assumptions...)
+	assumptions = append(assumptions, links...)
 	absSet := map[string]bool{}
 	for _, g := range gens {
 		for _, a := range g.assumptions {
